@@ -669,6 +669,269 @@ func descr(c pcase, r result) map[string]interface{} {
 	return d
 }
 
+
+// ---- thresholds / deltas numerically adjacent to a leaf ------------------------------------------
+//
+// nearValue returns a value of the same class as the scalar raw whose VALUE is equal or adjacent
+// to raw's, but usually in another encoding: the same integer or the integer +-1 in every width
+// that holds it; for floats the exact float64 image of a float32, its float64 neighbours (one
+// float64 ulp away, half a float32 ulp away, a relative 1e-9 away), the float32 rounding of a
+// float64, the float32 neighbours, and magnitudes outside the float32 range; for strings and
+// binaries the same payload under another header, a prefix, an extension by 0x00 and a last
+// byte +1.  Comparisons and INC must be exact on these: any narrowing, truncation or
+// compare-by-difference in the code shows up here and nowhere else.
+func encInt(r *common.Rng, v int64) []byte {
+	var opts [][]byte
+	if v >= -32 && v < 0 {
+		opts = append(opts, []byte{byte(v)})
+	}
+	if v >= math.MinInt8 && v <= math.MaxInt8 {
+		opts = append(opts, []byte{0xd0, byte(v)})
+	}
+	if v >= math.MinInt16 && v <= math.MaxInt16 {
+		opts = append(opts, append([]byte{0xd1}, be(uint64(v), 2)...))
+	}
+	if v >= math.MinInt32 && v <= math.MaxInt32 {
+		opts = append(opts, append([]byte{0xd2}, be(uint64(v), 4)...))
+	}
+	opts = append(opts, append([]byte{0xd3}, be(uint64(v), 8)...))
+	return opts[r.Intn(len(opts))]
+}
+
+func encUint(r *common.Rng, v uint64) []byte {
+	var opts [][]byte
+	if v < 128 {
+		opts = append(opts, []byte{byte(v)})
+	}
+	if v <= math.MaxUint8 {
+		opts = append(opts, []byte{0xcc, byte(v)})
+	}
+	if v <= math.MaxUint16 {
+		opts = append(opts, append([]byte{0xcd}, be(v, 2)...))
+	}
+	if v <= math.MaxUint32 {
+		opts = append(opts, append([]byte{0xce}, be(v, 4)...))
+	}
+	opts = append(opts, append([]byte{0xcf}, be(v, 8)...))
+	return opts[r.Intn(len(opts))]
+}
+
+func f64b(v float64) []byte { return append([]byte{0xcb}, be(math.Float64bits(v), 8)...) }
+func f32b(v float32) []byte { return append([]byte{0xca}, be(uint64(math.Float32bits(v)), 4)...) }
+
+func beU(b []byte) uint64 {
+	var v uint64
+	for _, x := range b {
+		v = v<<8 | uint64(x)
+	}
+	return v
+}
+
+func nearValue(r *common.Rng, raw []byte) []byte {
+	if len(raw) == 0 {
+		return nil
+	}
+	c := raw[0]
+	delta := int64(r.Intn(3) - 1)
+	if r.Chance(30) {
+		// congruent modulo a narrower width: equal after a truncating conversion, different in value
+		delta = []int64{1 << 8, -(1 << 8), 1 << 16, -(1 << 16), 1 << 32, -(1 << 32), 1<<8 + 1, 1<<16 - 1}[r.Intn(8)]
+	}
+	addI := func(v int64) int64 { // v + delta without int64 overflow
+		if (delta > 0 && v > math.MaxInt64-delta) || (delta < 0 && v < math.MinInt64-delta) {
+			return v
+		}
+		return v + delta
+	}
+	addU := func(v uint64) uint64 {
+		if delta >= 0 {
+			if v > math.MaxUint64-uint64(delta) {
+				return v
+			}
+			return v + uint64(delta)
+		}
+		if v < uint64(-delta) {
+			return v
+		}
+		return v - uint64(-delta)
+	}
+	switch {
+	case c >= 0xe0: // negative fixint
+		return encInt(r, addI(int64(int8(c))))
+	case c == 0xd0 && len(raw) == 2:
+		return encInt(r, addI(int64(int8(raw[1]))))
+	case c == 0xd1 && len(raw) == 3:
+		return encInt(r, addI(int64(int16(beU(raw[1:])))))
+	case c == 0xd2 && len(raw) == 5:
+		return encInt(r, addI(int64(int32(beU(raw[1:])))))
+	case c == 0xd3 && len(raw) == 9:
+		return encInt(r, addI(int64(beU(raw[1:]))))
+	case c <= 0x7f, c == 0xcc && len(raw) == 2, c == 0xcd && len(raw) == 3, c == 0xce && len(raw) == 5, c == 0xcf && len(raw) == 9:
+		v := uint64(c)
+		if c > 0x7f {
+			v = beU(raw[1:])
+		}
+		return encUint(r, addU(v))
+	case c == 0xca && len(raw) == 5:
+		f32 := math.Float32frombits(uint32(beU(raw[1:])))
+		f := float64(f32)
+		up32 := math.Nextafter32(f32, float32(math.Inf(1)))
+		dn32 := math.Nextafter32(f32, float32(math.Inf(-1)))
+		switch r.Intn(12) {
+		case 0:
+			return f64b(f)
+		case 1:
+			return f64b(math.Nextafter(f, math.Inf(1)))
+		case 2:
+			return f64b(math.Nextafter(f, math.Inf(-1)))
+		case 3:
+			return f64b((f + float64(up32)) / 2)
+		case 4:
+			return f64b((f + float64(dn32)) / 2)
+		case 5:
+			return f64b(f * (1 + 1e-9))
+		case 6:
+			return f64b(f + (float64(up32)-f)/3)
+		case 7:
+			return f32b(up32)
+		case 8:
+			return f32b(dn32)
+		case 9:
+			return f64b([]float64{1e300, -1e300, 2 * math.MaxFloat32, -2 * math.MaxFloat32, 5e-324, 1e-60}[r.Intn(6)])
+		case 10:
+			return f64b(float64(up32))
+		}
+		return f64b(-f)
+	case c == 0xcb && len(raw) == 9:
+		f := math.Float64frombits(beU(raw[1:]))
+		switch r.Intn(8) {
+		case 0:
+			return f32b(float32(f)) // the float32 rounding of the field
+		case 1:
+			return f64b(math.Nextafter(f, math.Inf(1)))
+		case 2:
+			return f64b(math.Nextafter(f, math.Inf(-1)))
+		case 3:
+			return f64b(float64(float32(f)))
+		case 4:
+			return f32b(math.Nextafter32(float32(f), float32(math.Inf(1))))
+		case 5:
+			return f32b(math.Nextafter32(float32(f), float32(math.Inf(-1))))
+		case 6:
+			return f64b(f)
+		}
+		return f64b(f * (1 - 1e-12))
+	}
+	// strings / binaries: same payload, neighbours in byte-wise order, other header widths
+	var payload []byte
+	isStr := false
+	switch {
+	case c >= 0xa0 && c <= 0xbf:
+		payload, isStr = raw[1:], true
+	case c == 0xd9 && len(raw) >= 2:
+		payload, isStr = raw[2:], true
+	case c == 0xda && len(raw) >= 3:
+		payload, isStr = raw[3:], true
+	case c == 0xdb && len(raw) >= 5:
+		payload, isStr = raw[5:], true
+	case c == 0xc4 && len(raw) >= 2:
+		payload = raw[2:]
+	case c == 0xc5 && len(raw) >= 3:
+		payload = raw[3:]
+	case c == 0xc6 && len(raw) >= 5:
+		payload = raw[5:]
+	default:
+		return append([]byte(nil), raw...)
+	}
+	p := append([]byte(nil), payload...)
+	switch r.Intn(5) {
+	case 0:
+		p = append(p, 0)
+	case 1:
+		if len(p) > 0 {
+			p = p[:len(p)-1]
+		}
+	case 2:
+		if len(p) > 0 {
+			p[len(p)-1]++
+		}
+	case 3:
+		if len(p) > 0 {
+			p[0]--
+		}
+	}
+	if isStr {
+		return encStr(string(p), r.Intn(4))
+	}
+	switch r.Intn(3) {
+	case 0:
+		return append([]byte{0xc4, byte(len(p))}, p...)
+	case 1:
+		return append(append([]byte{0xc5}, be(uint64(len(p)), 2)...), p...)
+	}
+	return append(append([]byte{0xc6}, be(uint64(len(p)), 4)...), p...)
+}
+
+// genNear: one leaf of every numeric / string / binary encoding at a known key, a condition whose
+// threshold is adjacent to it (or an INC whose delta is), and a marker op.
+func genNear(r *common.Rng) pcase {
+	doc := genBody(r)
+	var leaf []byte
+	switch r.Intn(10) {
+	case 0, 1, 2:
+		if r.Bool() {
+			leaf = f32b([]float32{0.1, 1, 16777216, 3.4028235e38, 1e-45, -0.1, 1.5, 0.3, 123456.79, 1e10}[r.Intn(10)])
+		} else {
+			leaf = f32b(math.Float32frombits(uint32(r.U64())))
+		}
+	case 3, 4:
+		if r.Bool() {
+			leaf = f64b([]float64{0.1, 1, 9007199254740992, 1e300, 5e-324, 16777217, 0.30000000000000004, -2.5}[r.Intn(8)])
+		} else {
+			leaf = f64b(math.Float64frombits(r.U64()))
+		}
+	case 5, 6:
+		leaf = numOf(r, 1)
+	case 7, 8:
+		leaf = numOf(r, 2)
+	default:
+		leaf = encStr(strPool[r.Intn(len(strPool))], r.Intn(4))
+		if r.Bool() {
+			pl := r.Bytes(r.Intn(4))
+			leaf = append([]byte{0xc4, byte(len(pl))}, pl...)
+		}
+	}
+	key := []string{"v", "f", "n"}[r.Intn(3)]
+	pos := r.Intn(len(doc.kids) + 1)
+	doc.keys = append(doc.keys[:pos], append([]string{key}, doc.keys[pos:]...)...)
+	doc.khdr = append(doc.khdr[:pos], append([]int{0}, doc.khdr[pos:]...)...)
+	doc.kids = append(doc.kids[:pos], append([]*node{{kind: 0, raw: leaf}}, doc.kids[pos:]...)...)
+	// the first field with that key is the addressed one
+	for i, k := range doc.keys {
+		if k == key {
+			if doc.kids[i].kind == 0 {
+				leaf = doc.kids[i].raw
+			}
+			break
+		}
+	}
+	c := pcase{body: doc.enc(), tag: "near"}
+	if r.Chance(75) {
+		c.cond = &msgpackpatch.Condition{Path: key, Op: msgpackpatch.CondOp(r.Intn(6)), Threshold: nearValue(r, leaf)}
+		c.ops = []msgpackpatch.Op{mkop(0, "marker", []byte{0xc3})}
+		if r.Chance(30) {
+			c.ops = append(c.ops, mkop(2, key, nearValue(r, leaf)))
+		}
+	} else {
+		// INC by an adjacent value (x + (-x+-1), float32 + float64 not representable in float32), twice
+		c.ops = []msgpackpatch.Op{mkop(2, key, nearValue(r, leaf)), mkop(2, key, nearValue(r, leaf))}
+		if r.Bool() {
+			c.cond = &msgpackpatch.Condition{Path: key, Op: msgpackpatch.CondOp(r.Intn(6)), Threshold: nearValue(r, leaf)}
+		}
+	}
+	return c
+}
+
 func genCond(r *common.Rng, locs []located) *msgpackpatch.Condition {
 	p, target := genPath(r, locs, -1)
 	op := r.Intn(8)
@@ -678,6 +941,8 @@ func genCond(r *common.Rng, locs []located) *msgpackpatch.Condition {
 	var thr []byte
 	x := r.Intn(100)
 	switch {
+	case x < 25 && target != nil && target.kind == 0:
+		thr = nearValue(r, target.raw)
 	case x < 60:
 		thr = numLike(r, target)
 	case x < 70 && target != nil && target.kind == 0:
@@ -1014,6 +1279,9 @@ func genChain(r *common.Rng) pcase {
 		thr := num()
 		if target != nil && target.kind == 0 && r.Chance(50) {
 			thr = numLike(r, target)
+			if r.Bool() {
+				thr = nearValue(r, target.raw)
+			}
 		}
 		c.cond = &msgpackpatch.Condition{Path: focus, Op: msgpackpatch.CondOp(r.Intn(8)), Threshold: thr}
 	}
@@ -1086,12 +1354,12 @@ func witnesses() []pcase {
 func main() {
 	a := common.ParseArgs()
 	run := common.NewRun(a, "C13", "HV.Patch.Check")
-	run.Meta.Rule = "a case is (msgpack body, 0-7 ops, optional condition) given to the real msgpackpatch.ApplyWithCondition; bodies are generated documents (depth <= 4, every leaf code, minimal and non-minimal headers, duplicate keys, 13-17 element containers) plus a stream of truncated/corrupted/non-map bodies; paths come from the document (existing, missing, negative/out-of-range indices, append marker) plus malformed path strings; values are well-formed scalars, containers, class-matched numeric deltas, and malformed byte strings; a third stream are chains: 2-6 ops of one patch on the same slot and its neighbourhood (retype then INC, delete then re-create, create then overwrite the parent, append across 15/16 then remove, merge then INC a merged key, repeated INC/SET, duplicate keys in the body and inside MERGE values - new to the target or not, same key under different string headers -, the same value appended twice then removed by value, nested slots sharing one key name), so that later ops read what earlier ops wrote; every patch is also evaluated a second time and, without a condition, through Apply (same result required), and the caller's body/op bytes must be unchanged; non-trivial = the patch succeeded and changed the body, or failed after a successful parse with an error raised by an op or the condition"
+	run.Meta.Rule = "a case is (msgpack body, 0-7 ops, optional condition) given to the real msgpackpatch.ApplyWithCondition; bodies are generated documents (depth <= 4, every leaf code, minimal and non-minimal headers, duplicate keys, 13-17 element containers) plus a stream of truncated/corrupted/non-map bodies; paths come from the document (existing, missing, negative/out-of-range indices, append marker) plus malformed path strings; values are well-formed scalars, containers, class-matched numeric deltas, and malformed byte strings; a third stream are chains: 2-6 ops of one patch on the same slot and its neighbourhood (retype then INC, delete then re-create, create then overwrite the parent, append across 15/16 then remove, merge then INC a merged key, repeated INC/SET, duplicate keys in the body and inside MERGE values - new to the target or not, same key under different string headers -, the same value appended twice then removed by value, nested slots sharing one key name), so that later ops read what earlier ops wrote; a fourth stream puts one leaf of every numeric/string/binary encoding at a known key and uses thresholds and INC deltas whose value is equal or adjacent to it in another encoding (integer +-1 in every width, float64 neighbours of a float32 - one float64 ulp, half a float32 ulp, relative 1e-9 -, float32 rounding of a float64, magnitudes outside float32, string prefix/extension); every patch is also evaluated a second time and, without a condition, through Apply (same result required), and the caller's body/op bytes must be unchanged; non-trivial = the patch succeeded and changed the body, or failed after a successful parse with an error raised by an op or the condition"
 	rng := common.NewRng(a.Seed, "C13")
 
-	n, nbad, nchain := 2000, 200, 1000
+	n, nbad, nchain, nnear := 1800, 200, 1000, 600
 	if a.Tier == "thorough" {
-		n, nbad, nchain = 30000, 3000, 15000
+		n, nbad, nchain, nnear = 28000, 3000, 14000, 8000
 	}
 	var cases []pcase
 	cases = append(cases, witnesses()...)
@@ -1104,6 +1372,10 @@ func main() {
 	crng := rng.Fork("chain")
 	for i := 0; i < nchain; i++ {
 		cases = append(cases, genChain(crng))
+	}
+	nrng := rng.Fork("near")
+	for i := 0; i < nnear; i++ {
+		cases = append(cases, genNear(nrng))
 	}
 	res := make([]result, len(cases))
 	common.Parallel(len(cases), 16, func(i int) { res[i] = runCase(cases[i]) })
